@@ -494,6 +494,11 @@ fn check_tree(input: &[u8], cuts: &[usize], st: &mut Stats) {
     });
     st.evaluations += 1;
     st.count("tree_runs");
+    if let Err(m) = &r {
+        // the one-piece parse of the lossy string and the chunked byte front end run in the same closure; either
+        // panicking means the front end did not deliver what a whole-input decode delivers
+        st.violation("tree:panic", &format!("bytes [{}] cuts={cuts:?}: parsing through from_utf8() (or the one-piece reference parse) panicked: {m}", hex(&input[..input.len().min(60)])), json!({"kind": "tree", "bytes": hex(input), "cuts": cuts}));
+    }
     if let Ok((a, b, xa, xb)) = r {
         if a != b {
             st.violation("tree:html", &format!("bytes [{}] cuts={cuts:?}: from_utf8() tree differs from the tree of the lossy string: {}", hex(&input[..input.len().min(40)]), dump_diff(&b, &a)), json!({"kind": "tree", "bytes": hex(input), "cuts": cuts}));
@@ -589,8 +594,28 @@ pub fn run(args: &Args) -> (Meta, Stats) {
                     }
                 },
                 _ => {
-                    let b = random_bytes(&mut rng, 48);
-                    let cuts = random_cuts_b(&mut rng, b.len());
+                    // byte soup, or (one run in three) real markup with one to three meta elements (the driver loops on
+                    // encoding indicators and script pauses inside process()/finish()), ill-formed bytes sprinkled in,
+                    // fed in one piece as often as in chunks
+                    let b = if rng.chance(1, 3) {
+                        let mut s = String::new();
+                        for _ in 0..rng.range(1, 4) {
+                            s.push_str(&crate::gen::random_meta(&mut rng));
+                            if rng.chance(1, 2) {
+                                s.push_str(&crate::gen::tok_soup(&mut rng, 4));
+                            }
+                        }
+                        let mut v = s.into_bytes();
+                        for _ in 0..rng.below(3) {
+                            let at = rng.below(v.len() + 1);
+                            v.insert(at, *rng.pick(&REPS));
+                        }
+                        st.count("tree_runs_over_markup_with_meta_elements");
+                        v
+                    } else {
+                        random_bytes(&mut rng, 48)
+                    };
+                    let cuts = if rng.chance(1, 3) { vec![] } else { random_cuts_b(&mut rng, b.len()) };
                     st.distinct.insert(hash_bytes(&b));
                     check_tree(&b, &cuts, st);
                 },
